@@ -140,6 +140,14 @@ func zzDo(c *Client, ctx context.Context, url string, dest, req any) error {
 	if zzMode == 1 && call == zzFailCall {
 		return errors.New("transport")
 	}
+	if zzMode == 1 && zzAllowFail && zzvrf.Bool("honest-node-transport-error") {
+		zzFailures++
+		return errors.New("transport")
+	}
+	switch dest.(type) {
+	case *[]blockResp, *[]headerResp:
+		zzBlockFetches++
+	}
 	switch d := dest.(type) {
 	case *[]blockResp:
 		zzSlice(len(*d), func(n int) { *d = zzResizeBlock(*d, n) })
@@ -177,6 +185,11 @@ func zzDo(c *Client, ctx context.Context, url string, dest, req any) error {
 		}
 		if d.Header == nil {
 			d.Header = &eth.Header{}
+		}
+		if zzMode == 1 && zzHeadHash != nil {
+			d.Header.Number = eth.Uint64(zzHeadNum)
+			d.Header.Hash = zzHeadHash
+			break
 		}
 		zzHeader(d.Header, zzHeadNum)
 	case *[]receiptResp:
@@ -237,8 +250,22 @@ func zzDo(c *Client, ctx context.Context, url string, dest, req any) error {
 			zzHeader(h.Header, zzStart+zzLimit-1)
 		}
 		n := zzItems("nlogs")
-		l.Result = make([]logResult, n)
-		for j := range l.Result {
+		if zzMode == 1 && zzNode != nil && zzNode.TwoLogs {
+			nd := zzNode
+			l.Result = nil
+			if zzCurFilter == 0 || zzCurFilter == 2 {
+				l.Result = append(l.Result, logResult{Log: &eth.Log{Idx: eth.Uint64(nd.LogIdx), Address: nd.LogAddr, Topics: []eth.Bytes{nd.LogTopic0}, Data: nd.LogData},
+					BlockNum: eth.Uint64(zzStart), TxIdx: 0, BlockHash: nd.BlockHash, TxHash: nd.TxHash})
+			}
+			if zzCurFilter == 1 || zzCurFilter == 2 {
+				l.Result = append(l.Result, logResult{Log: &eth.Log{Idx: eth.Uint64(nd.LogIdx + 1), Address: nd.LogAddrB, Topics: []eth.Bytes{nd.LogTopic0}, Data: nd.LogData},
+					BlockNum: eth.Uint64(zzStart), TxIdx: 0, BlockHash: nd.BlockHash, TxHash: nd.TxHash})
+			}
+			n = 0
+		} else {
+			l.Result = make([]logResult, n)
+		}
+		for j := 0; j < n; j++ {
 			x := &l.Result[j]
 			if zzMode == 1 && zzNode != nil {
 				n := zzNode
@@ -301,8 +328,13 @@ func zzDo(c *Client, ctx context.Context, url string, dest, req any) error {
 }
 
 var (
-	zzHeadNum   uint64
-	zzTraceCall int
+	zzHeadNum      uint64
+	zzHeadHash     []byte
+	zzTraceCall    int
+	zzAllowFail    bool
+	zzFailures     int
+	zzBlockFetches int
+	zzCurFilter    int // honest eth_getLogs: 0 -> only log A matches, 1 -> only log B, 2 -> both
 )
 
 // zzSlice lets the adversarial node answer a batch with one element fewer,
